@@ -75,6 +75,9 @@ def _single_cases(tier):
             kinds.append(["nullable", k, n])
     kinds += [["nullable", "enum_str", "enumnull"], ["nullable", "enum_int", "enumnull"]]
     kinds += [["array", ["array", k]] for k in atoms]
+    # COUNTS: unions of ONE member (a one-member oneOf), alone and as array items; unions of three members
+    kinds += [["union", k] for k in atoms] + [["array", ["union", k]] for k in atoms]
+    kinds += [["union", a, b, c] for a, b, c in (("date", "int", "model_ref"), ("model_ref", "date", "int"), ("int", "model_ref", "date"), ("enum_str", "uuid", "bool"), ("uuid", "enum_str", "null"))]
     if tier == "thorough":
         kinds += [["array", ["array", ["array", k]]] for k in ("date", "uuid", "model_ref", "enum_str", "int")]
         kinds += [["array", ["union", a, b]] for a in atoms for b in atoms if a < b]
@@ -204,6 +207,11 @@ def _shape_cases(tier):
     odd = {"M": {"type": "object", "required": ["first-name"], "properties": {
         "first-name": {"type": "string"}, "Last Name": {"type": "string"}, "class": {"type": "integer"}, "1st": {"type": "boolean"},
         "_private": {"type": "string", "format": "date"}, "camelCase": {"type": "array", "items": {"type": "integer"}}}}}
+    # ... names holding quote characters, required and optional, in a closed model (an undeclared key is not absorbed)
+    q1, q2, q3 = 'size 15"', '"note"', "it's"
+    quoted = {"M": {"type": "object", "required": [q1, q3], "additionalProperties": False, "properties": {
+        q1: {"type": "integer"}, q2: {"type": "string"}, q3: {"type": "string"}}}}
+    yield _shape("quoted-names", quoted, [{"cls": "min", "value": {q1: 1, q3: "x"}}, {"cls": "full", "value": {q1: 2, q2: "n", q3: "y"}}])
     oinsts = [{"cls": "min", "value": {"first-name": "a"}},
               {"cls": "full", "value": {"first-name": "a", "Last Name": "b", "class": 1, "1st": True, "_private": "2020-01-02", "camelCase": [1, 2]}}]
     yield _shape("odd-names", odd, oinsts)
